@@ -2,6 +2,7 @@ SPECIFICATION Spec
 CONSTANTS D = 3
           NPre = 3
           NE = 4
+          EMin = 1
           EMax = 3
           Dirs = {"rtl"}
           Caps = {1, 2, 3, 99}
